@@ -3,14 +3,17 @@
    PARTIAL: see the header of Model/Strl.v for what is not modelled. *)
 From Coq Require Import ZArith Bool List.
 Import ListNotations.
-From Verif Require Import Model.Val Model.Strl Proofs.StrlP.
+From Verif Require Import Model.Val Model.Strl Proofs.StrlP Proofs.StrlP2.
 Open Scope Z_scope.
 
-(* the utility reported by populateResults is the value of the model objective *)
-Theorem C20_utility_is_objective : forall pt now g e cs a,
-  compile pt now g e = Ok cs -> sol_util (solve pt now a e) = objective_value cs a.
-Proof. exact utility_is_objective. Qed.
-Print Assumptions C20_utility_is_objective.
+(* capacity: for every tree whose leaf start times are congruent modulo the granularity, every
+   assignment satisfying the compiled model, read back by populateResults, keeps the usage of every
+   partition (placements + allocation leaves) within its quantity at every time *)
+Theorem C20_capacity : forall pt now g e cs a,
+  compile pt now g e = Ok cs -> sat cs a = true -> wf_in pt g e -> aligned g e ->
+  forall p tau, usage (populate pt now a e) p tau + alloc_usage e p tau <= qty0 pt p.
+Proof. exact capacity_aligned. Qed.
+Print Assumptions C20_capacity.
 
 (* finding F13: without alignment of the leaf start times a solution can over-subscribe a partition *)
 Theorem C20_capacity_refuted :
@@ -19,3 +22,9 @@ Theorem C20_capacity_refuted :
     usage (populate pt now a e) p tau + alloc_usage e p tau > qty0 pt p.
 Proof. exact capacity_unaligned_refuted. Qed.
 Print Assumptions C20_capacity_refuted.
+
+(* the utility reported by populateResults is the value of the model objective *)
+Theorem C20_utility_is_objective : forall pt now g e cs a,
+  compile pt now g e = Ok cs -> sol_util (solve pt now a e) = objective_value cs a.
+Proof. exact utility_is_objective. Qed.
+Print Assumptions C20_utility_is_objective.
